@@ -29,6 +29,7 @@ theorem cfg_bareRaise : bareBuiltinsRaise = "PedanticTypeCheckException" := by d
 theorem cfg_special_any : specialIs "Any" "const_true" = true := by decide
 theorem cfg_special_union : specialIs "Union" "_instancecheck_union" = true := by decide
 theorem cfg_special_optional : specialIs "Optional" "_instancecheck_union" = true := by decide
+theorem cfg_unionDispatch (sp : USpell) : unionDispatchOk sp = true := by cases sp <;> decide
 theorem cfg_special_literal : specialIs "Literal" "_instancecheck_literal" = true := by decide
 theorem cfg_origin_type : originIs "typing.Type" "_instancecheck_type" = true := by decide
 theorem cfg_origin_tuple : originIs "typing.Tuple" "_instancecheck_tuple" = true := by decide
